@@ -188,11 +188,14 @@ class HybridCache(_CacheBase):
         # Calculate normalized access frequencies and computation durations
         total_access_count = sum(self._access_counts.values())
         total_duration = sum(self._computation_durations.values())
+        # The totals are zero if, e.g., all durations are below the clock resolution
         normalized_access_counts = {
-            k: v / total_access_count for k, v in self._access_counts.items()
+            k: v / total_access_count if total_access_count else 0.0
+            for k, v in self._access_counts.items()
         }
         normalized_durations = {
-            k: v / total_duration for k, v in self._computation_durations.items()
+            k: v / total_duration if total_duration else 0.0
+            for k, v in self._computation_durations.items()
         }
 
         # Calculate scores using a weighted sum
